@@ -105,6 +105,14 @@ def child(env):
     return Scope(env)
 
 
+def outermost(env):
+    """The module-level environment a chain of local scopes rests on (a module-level function runs in it, not in its caller's
+    scopes)."""
+    while isinstance(env, Scope):
+        env = env.parent
+    return env
+
+
 class Sym:
     """Opaque symbolic value; arithmetic keeps it symbolic, branching on it is Unknown."""
     __slots__ = ('name',)
@@ -371,6 +379,7 @@ _STDLIB_PURE = {   # side-effect-free stdlib helpers the repository imports by n
     ('functools', 'reduce'): _ft.reduce, ('functools', 'partial'): _ft.partial,
     ('operator', 'itemgetter'): operator.itemgetter,
     ('sys', 'maxsize'): __import__('sys').maxsize,
+    ('itertools', 'batched'): lambda it, n: list(_it.batched(it, n)),
     ('collections', 'defaultdict'): collections.defaultdict,
     ('xml.sax.saxutils', 'quoteattr'): __import__('xml.sax.saxutils', fromlist=['quoteattr']).quoteattr,
     ('xml.sax.saxutils', 'escape'): __import__('xml.sax.saxutils', fromlist=['escape']).escape,
@@ -403,7 +412,7 @@ _PURE_MODULES = {   # `import X` / `from X import y` of side-effect-free stdlib 
                   'accumulate': _listify(_it.accumulate), 'starmap': _listify(_it.starmap), 'takewhile': _listify(_it.takewhile),
                   'dropwhile': _listify(_it.dropwhile), 'compress': _listify(_it.compress), 'count': _it.count, 'cycle': _it.cycle,
                   'permutations': _listify(_it.permutations), 'combinations': _listify(_it.combinations), 'pairwise': _listify(_it.pairwise),
-                  'filterfalse': _listify(_it.filterfalse)},
+                  'filterfalse': _listify(_it.filterfalse), 'batched': _listify(_it.batched)},
     'functools': {'reduce': _ft.reduce, 'partial': _ft.partial},
     'collections': {'defaultdict': collections.defaultdict, 'namedtuple': collections.namedtuple, 'OrderedDict': collections.OrderedDict,
                     'Counter': collections.Counter, 'deque': collections.deque},
@@ -660,7 +669,7 @@ def _call(node, env):
         # a module-level helper used to *compute* a table: fold it with the abstract interpreter (data-independent code)
         from .interp import Interp, FuncVal
         it = Interp(max_steps=2_000_000)
-        genv = dict(env)         # the module as far as it has been evaluated (a helper can only use what precedes it)
+        genv = dict(outermost(env))         # the module as far as it has been evaluated (a helper can only use what precedes it)
         for k, v in list(genv.items()):
             if isinstance(v, FuncRef) and isinstance(v.node, ast.FunctionDef):
                 genv[k] = FuncVal(v.node, genv, it)
@@ -670,7 +679,7 @@ def _call(node, env):
         from .interp import Interp, FuncVal, ClassVal, _is_exception_class
         if not _is_exception_class(fn.node, env):
             it = Interp(max_steps=2_000_000)
-            genv = dict(env)
+            genv = dict(outermost(env))
             for k, v in list(genv.items()):
                 if isinstance(v, FuncRef) and isinstance(v.node, ast.FunctionDef):
                     genv[k] = FuncVal(v.node, genv, it)
